@@ -99,20 +99,50 @@ def specs(ctx):
 # ----------------------------------------------------------------------------------------
 # instrumented run of Hydrodynamics.findvwLTE
 
+class LteRaised(Exception):
+    def __init__(self, exc, aux):
+        Exception.__init__(self, repr(exc))
+        self.exc, self.aux = exc, aux
+
+
 def record_findvwLTE(hy):
     """Runs the real hy.findvwLTE() while recording, from outside, the top-level calls it
     makes: matchDeflagOrHyb(vw) [+ success flag], solveHydroShock, root_scalar(shock |
-    shockTnuclDiff).  Returns (result, events)."""
+    shockTnuclDiff).  Returns (result, events, aux); aux lists for every top-level
+    matchDeflagOrHyb call the initial guess handed to scipy root, the success flag and
+    whether the call raised.  If findvwLTE raises, LteRaised carries aux."""
     import WallGo.hydrodynamics as H
-    events = []
+    events, aux = [], []
     depth = [0]
-    orig_match, orig_shock, orig_rs = hy.matchDeflagOrHyb, hy.solveHydroShock, H.root_scalar
+    cur = {"x0": None}
+    orig_match, orig_shock, orig_rs, orig_root = hy.matchDeflagOrHyb, hy.solveHydroShock, \
+        H.root_scalar, H.root
+
+    def root(f, x0, *a, **k):
+        if depth[0] == 0:
+            cur["x0"] = [float(t) for t in x0]
+        return orig_root(f, x0, *a, **k)
+
+    def guess():
+        if cur["x0"] is None:
+            return None
+        return [float(t) for t in hy._inverseMappingT(cur["x0"])]
 
     def match(vw, vp=None):
-        r = orig_match(vw, vp)
+        if depth[0] == 0:
+            cur["x0"] = None
+        try:
+            r = orig_match(vw, vp)
+        except Exception:
+            if depth[0] == 0:
+                aux.append(dict(vw=float(vw), guess=guess(), success=bool(hy.success),
+                                raised=True))
+            raise
         if depth[0] == 0:
             events.append(("match", float(vw), vp is None, tuple(float(x) for x in r),
                            bool(hy.success)))
+            aux.append(dict(vw=float(vw), guess=guess(), success=bool(hy.success),
+                            raised=False))
         return r
 
     def shockT(vw, vp, Tp):
@@ -132,18 +162,46 @@ def record_findvwLTE(hy):
             if top:
                 events.append(("root", name, tuple(float(x) for x in k.get("bracket")), None))
             raise
+        except Exception:
+            depth[0] -= 1
+            raise
         depth[0] -= 1
         if top:
             events.append(("root", name, tuple(float(x) for x in k.get("bracket")),
                            float(r.root)))
         return r
-    hy.matchDeflagOrHyb, hy.solveHydroShock, H.root_scalar = match, shockT, rs
+    hy.matchDeflagOrHyb, hy.solveHydroShock, H.root_scalar, H.root = match, shockT, rs, root
     try:
         res = hy.findvwLTE()
+    except Exception as ex:
+        raise LteRaised(ex, aux)
     finally:
         del hy.matchDeflagOrHyb, hy.solveHydroShock
-        H.root_scalar = orig_rs
-    return float(res), events
+        H.root_scalar, H.root = orig_rs, orig_root
+    return float(res), events, aux
+
+
+CLASS_KEY = "lte-crude-guess-at-vMin"
+
+
+def crude_guess_class(th, hy, aux):
+    """The registered defect class, measured on the live object.  All of:
+      (b) not (hy.vMin > hy.template.vMin): on the unchanged code the guard
+          `vw > self.template.vMin` of matchDeflagOrHyb is legitimately False at vw == vMin;
+      (c) the top-level matchDeflagOrHyb(vMin) of findvwLTE started scipy root from the crude
+          guess [Tn, 0.99 Tn] and did not converge (success False, or it raised).
+    (a) -- wrong sentinel / exception although the mismatch is positive at the smallest
+    allowed velocity -- is established by the caller."""
+    if hy.vMin > hy.template.vMin:
+        return False
+    at = [a for a in aux if a["vw"] == float(hy.vMin)]
+    if not at:
+        return False
+    a = at[-1]
+    Tn = float(th.Tnucl)
+    g = a["guess"]
+    crude = g is not None and abs(g[0] - Tn) <= 1e-9 * Tn and abs(g[1] - 0.99 * Tn) <= 1e-9 * Tn
+    return crude and (a["raised"] or not a["success"])
 
 
 def Q(x):
@@ -518,10 +576,15 @@ def check_lte(ctx, spec, rtol=1e-6, atol=1e-10, gated=True):
     Tn = th.Tnucl
     case = dict(spec=spec, rtol=rtol, atol=atol)
     try:
-        res, events = record_findvwLTE(hy)
-    except Exception as ex:
-        fails.append(("findvwLTE raised %s; %s" % (repr(ex)[:160], spec),
-                      dict(kind="raise", **case), "raises:" + sid))
+        res, events, aux = record_findvwLTE(hy)
+    except LteRaised as lr:
+        E = mismatch(hy, S.window_lo(hy))
+        key = "raises:" + sid
+        if E is not None and E > 0 and crude_guess_class(th, hy, lr.aux):
+            key = CLASS_KEY
+        fails.append(("findvwLTE raised %s (mismatch %s at vw=%.6f); %s" % (
+            repr(lr.exc)[:160], "n/a" if E is None else "%+.3e" % E, S.window_lo(hy), spec),
+            dict(kind="raise", **case), key))
         return fails, None
     term, why = model_case(th, hy, res, events)
     nscan = ctx.n(64, 512)
@@ -610,7 +673,8 @@ def check_lte(ctx, spec, rtol=1e-6, atol=1e-10, gated=True):
                     "the smallest allowed velocity vw=%.6f (scan: %s); %s" % (
                         E, lo, " ".join("%+.0e" % e if e is not None else "n/a"
                                         for _v, e in sc), spec),
-                    dict(kind="static", vw=lo, **case), "static-sign:" + sid))
+                    dict(kind="static", vw=lo, **case),
+                    CLASS_KEY if crude_guess_class(th, hy, aux) else "static-sign:" + sid))
     else:
         fails.append(("findvwLTE returned %r; %s" % (res, spec), dict(kind="value", **case),
                       "lte-value"))
